@@ -147,34 +147,40 @@ fn stub_repair_incident<T, U, V, const D: usize>(
     vk_event(C_REPAIR);
 }
 
-#[kani::proof]
-#[kani::unwind(6)]
-#[kani::stub(Tds::collect_removal_frontier_and_clear_neighbor_back_references, stub_frontier)]
-#[kani::stub(Tds::remove_cells_and_update_uuid_mappings, stub_remove)]
-#[kani::stub(Tds::repair_incident_cells_after_cell_removal, stub_repair_incident)]
-fn remove_cells_bumps_generation_contract() {
-    let mut t = Tds2::empty();
-    let g0: u64 = kani::any();
-    kani::assume(g0 < u64::MAX - 2);
-    t.generation.store(g0, Ordering::Relaxed);
-    let removed: usize = kani::any();
-    vk_reset(0, removed);
-    let nkeys: usize = kani::any();
-    kani::assume(nkeys <= 2);
-    let keys = [CellKey::from(KeyData::from_ffi(0x1_0000_0001)), CellKey::from(KeyData::from_ffi(0x1_0000_0002))];
-    let r = t.remove_cells_by_keys(&keys[..nkeys]);
-    let expect = if removed <= nkeys { removed } else { nkeys };
-    assert!(r == expect, "OBL count: reports the number of cells actually removed");
-    if r > 0 {
-        assert!(t.generation() == g0 + 1, "OBL bump-on-removal: whenever at least one cell was removed the generation is bumped (exactly once)");
-        assert!(vk_called(C_REPAIR), "OBL incidence-repaired: incident-cell pointers are repaired after a removal");
-    } else {
-        assert!(t.generation() == g0, "OBL no-bump-without-change: nothing removed => generation unchanged");
-    }
-    kani::cover!(r == 2, "COV two cells removed");
-    kani::cover!(r == 0 && nkeys > 0, "COV stale keys only");
-    core::mem::forget(t);
+macro_rules! remove_cells_instance {
+    ($name:ident, $nkeys:expr) => {
+        #[kani::proof]
+        #[kani::unwind(6)]
+        #[kani::stub(Tds::collect_removal_frontier_and_clear_neighbor_back_references, stub_frontier)]
+        #[kani::stub(Tds::remove_cells_and_update_uuid_mappings, stub_remove)]
+        #[kani::stub(Tds::repair_incident_cells_after_cell_removal, stub_repair_incident)]
+        fn $name() {
+            let mut t = Tds2::empty();
+            let g0: u64 = kani::any();
+            kani::assume(g0 < u64::MAX - 2);
+            t.generation.store(g0, Ordering::Relaxed);
+            let removed: usize = kani::any();
+            vk_reset(0, removed);
+            let nkeys: usize = $nkeys; // concrete per instance (the key set is a real hash set)
+            let keys = [CellKey::from(KeyData::from_ffi(0x1_0000_0001)), CellKey::from(KeyData::from_ffi(0x1_0000_0002))];
+            let r = t.remove_cells_by_keys(&keys[..nkeys]);
+            let expect = if removed <= nkeys { removed } else { nkeys };
+            assert!(r == expect, "OBL count: reports the number of cells actually removed");
+            if r > 0 {
+                assert!(t.generation() == g0 + 1, "OBL bump-on-removal: whenever at least one cell was removed the generation is bumped (exactly once)");
+                assert!(vk_called(C_REPAIR), "OBL incidence-repaired: incident-cell pointers are repaired after a removal");
+            } else {
+                assert!(t.generation() == g0, "OBL no-bump-without-change: nothing removed => generation unchanged");
+            }
+            kani::cover!(r == nkeys && nkeys > 0, "COV all listed cells removed");
+            kani::cover!(r == 0, "COV stale keys only");
+            core::mem::forget(t);
+        }
+    };
 }
+remove_cells_instance!(remove_cells_bumps_generation_k1, 1);
+remove_cells_instance!(remove_cells_bumps_generation_k2, 2);
+remove_cells_instance!(remove_cells_bumps_generation_k0, 0);
 
 // remove_cell_by_key: removing a key that does not exist changes nothing and does not bump
 #[kani::proof]
